@@ -4,12 +4,15 @@ The statement skeleton of every modelled function is matched, node for node, aga
 skeletons below (annotations, docstrings and error-message texts are ignored; nothing else is).
 The deciding expressions sit in named holes (``HOLE_x``) and are translated to Coq ``Z`` / ``bool``
 terms; together with the module constants they form ``gen_params : M_Codec.params``.
-tie/T_Codec.v proves ``gen_params = std_params gen_eof_check`` by reflexivity, so any change of a
-constant, a comparison, a read size or the statement structure breaks an obligation.
+``gen_knobs`` collects the values no proof depends on (read chunk, default levels, wbits, eof guard).
+tie/T_Codec.v proves ``gen_params = std_params gen_knobs`` by reflexivity and ``1 <= k_chunk gen_knobs``,
+so a change of a comparison, of the shape of a read size, of the sentinels or of the statement structure
+breaks an obligation, while a change of the chunk size or of a default level does not.
 
-``_decompress_body_gzip`` is accepted in two shapes: as it is today, and with the
-``if not do.eof: raise DecompressionError(...)`` guards after the flush of both branches
-(candidate repair fixes/C17-gzip-truncated.diff); ``gen_eof_check`` says which one was found.
+``_decompress_body_gzip`` is accepted in three shapes: (0) as it is today, (1) with the
+``if not do.eof: raise DecompressionError(...)`` guards after the flush of both branches, (2) with those
+guards and ``do.eof or`` in the loop's break test (candidate repair fixes/C17-gzip-eof.diff);
+``k_eof`` / ``k_eof_break`` of ``gen_knobs`` say which one was found.
 """
 from __future__ import annotations
 
@@ -115,6 +118,39 @@ def _decompress_body_gzip(data, *, max_output_size=None):
                 raise DecompressionLimitExceeded(MSG)
             chunks.append(chunk)
         if not chunk and not do.unconsumed_tail:
+            break
+    tail = do.flush()
+    if tail:
+        total += len(tail)
+        if HOLE_gover_tail:
+            raise DecompressionLimitExceeded(MSG)
+        chunks.append(tail)
+    if not do.eof:
+        raise DecompressionError(MSG)
+    return b"".join(chunks)
+''', '''
+def _decompress_body_gzip(data, *, max_output_size=None):
+    do = zlib.decompressobj(HOLE_wbits_d)
+    if max_output_size is None:
+        out = do.decompress(data) + do.flush()
+        if not do.eof:
+            raise DecompressionError(MSG)
+        return out
+    chunks = []
+    total = 0
+    remaining = data
+    while remaining or do.unconsumed_tail:
+        if do.unconsumed_tail:
+            inbuf = do.unconsumed_tail
+        else:
+            inbuf, remaining = remaining, b""
+        chunk = do.decompress(inbuf, HOLE_greq)
+        if chunk:
+            total += len(chunk)
+            if HOLE_gover:
+                raise DecompressionLimitExceeded(MSG)
+            chunks.append(chunk)
+        if do.eof or (not chunk and not do.unconsumed_tail):
             break
     tail = do.flush()
     if tail:
@@ -373,7 +409,19 @@ def codec_definitions(path: Path) -> str:
     ]
     for c in used:
         lines.append(f"Definition gen_{c.lstrip('_')} : Z := ({consts[c]}).")
-    lines.append(f"Definition gen_eof_check : bool := {'true' if variant['_decompress_body_gzip'] == 1 else 'false'}.")
+    zreq = holes["zreq"]
+    if not (isinstance(zreq, ast.Call) and isinstance(zreq.func, ast.Name) and zreq.func.id == "min" and len(zreq.args) == 2 and not zreq.keywords):
+        raise TranslationBroken(site, f"zstd read size is not min(<chunk>, <room>): {ast.dump(zreq)[:120]}")
+    lines.append(f"Definition gen_eof_check : bool := {'true' if variant['_decompress_body_gzip'] >= 1 else 'false'}.")
+    lines.append(f"Definition gen_eof_break : bool := {'true' if variant['_decompress_body_gzip'] == 2 else 'false'}.")
+    lines.append("Definition gen_knobs : knobs := {|")
+    lines.append("  k_eof := gen_eof_check;")
+    lines.append("  k_eof_break := gen_eof_break;")
+    lines.append(f"  k_chunk := {zexpr(zreq.args[0], no_vars)};")
+    lines.append(f"  k_zstd_level := {default_level(holes['zlevel'], no_vars)};")
+    lines.append(f"  k_gzip_level := {default_level(holes['glevel'], no_vars)};")
+    lines.append(f"  k_wbits := {wb_d}")
+    lines.append("|}.")
     lines.append("Definition gen_params : params := {|")
     lines.append(f"  p_zstd_level := {default_level(holes['zlevel'], no_vars)};")
     lines.append(f"  p_gzip_level := {default_level(holes['glevel'], no_vars)};")
@@ -385,6 +433,7 @@ def codec_definitions(path: Path) -> str:
     lines.append(f"  p_greq := fun cap total => {zexpr(holes['greq'], env)};")
     lines.append(f"  p_gover := fun cap total => {bexpr(holes['gover'], env)};")
     lines.append(f"  p_gover_tail := fun cap total => {bexpr(holes['gover_tail'], env)};")
-    lines.append("  p_gz_eof_check := gen_eof_check")
+    lines.append("  p_gz_eof_check := gen_eof_check;")
+    lines.append("  p_gz_eof_break := gen_eof_break")
     lines.append("|}.")
     return "\n".join(lines) + "\n"
